@@ -163,5 +163,45 @@ func (c *Cond) Broadcast() {
 }
 
 // Pool and Map are passed through: they never block for long when one goroutine runs at a time.
-type Pool = sync.Pool
+// Pool stands in for sync.Pool. The real pool is process-wide state that survives from one explored
+// execution into the next (and its per-P caches make Get nondeterministic); this one is emptied at the
+// start of every execution and hands back the most recently Put item, the answer that lets a
+// recycled object's stale state reach the next user.
+type Pool struct {
+	New   func() any
+	mu    sync.Mutex
+	gen   uint64
+	items []any
+}
+
+func (p *Pool) Get() any {
+	vrt.PointObj("pool.Get", unsafe.Pointer(p))
+	p.mu.Lock()
+	if g := vrt.ExecGen(); p.gen != g {
+		p.gen, p.items = g, nil
+	}
+	var x any
+	if n := len(p.items); n > 0 {
+		x, p.items = p.items[n-1], p.items[:n-1]
+	}
+	p.mu.Unlock()
+	if x == nil && p.New != nil {
+		x = p.New()
+	}
+	return x
+}
+
+func (p *Pool) Put(x any) {
+	if x == nil {
+		return
+	}
+	vrt.PointObj("pool.Put", unsafe.Pointer(p))
+	p.mu.Lock()
+	if g := vrt.ExecGen(); p.gen != g {
+		p.gen, p.items = g, nil
+	}
+	p.items = append(p.items, x)
+	p.mu.Unlock()
+}
+
 type Map = sync.Map
